@@ -61,6 +61,12 @@ CLAIMED["C14"] = (
     COMMON_TRUST + " Assumed: storage FindByKey returns what was Added, cache Get returns nil or what was Set; TLS/ASN.1 codecs. Not decided here: interleavings with the detached cache-fill goroutine, expiry/eviction timing, the generic LRU wrapper.",
 )
 
+
+CLAIMED["C18"] = (
+    "Deductive proof, over abstract instants, that all three components use the same window predicate start <= t < limit with optional bounds: the log server reaches chain verification only when the leaf's NotAfter is inside the configured window (and refuses otherwise); the temporal client routes an instant to the first shard whose window contains it and errors exactly when none does; the log-list filter keeps a log exactly when it has no interval or its interval contains NotAfter; shard lists are refused unless every shard is non-inverted and each shard starts exactly where the previous one ended (only the last may be unbounded), and a certificate is submitted to the shard chosen by its NotAfter.",
+    COMMON_TRUST + " time.Time is modelled as an instant (monotonic reading and Location ignored); timestamppb.AsTime/CheckValid are assumed. Not proved in this revision: the exactly-one-shard lemma by induction over the shard list (the router returns the first containing shard).",
+)
+
 NOT_YET = "contracts for this property are not yet discharged by the generator in this revision; no other technique is substituted"
 NOT_APPLICABLE = {}
 
